@@ -107,7 +107,7 @@ HOOKS = {
 ENGINES = {
     "sim": {"path": "engine/sim.h", "serves": ["C03", "C05", "C06", "C08", "C09", "C10", "C16", "C17", "C18", "C20"],
             "kind": "harness-owned backend schedule: scheduler thread == ManualBackendWorker, baton-driven worker threads, interposed nanosleep/clock_gettime (blocked state, virtual time), yield-point bursts; harness/sim_main.cpp + sim_ops.h + sim_oracles.h"},
-    "rtstress": {"path": "harness/rt_stress.cpp", "serves": ["C03", "C06", "C08", "C17", "C20"], "kind": "real backend thread + 1-4 real frontend threads running generated programs under the OS scheduler; schedule-independent oracles at quiescence (second opinion for races inside backend/frontend functions that the serialised sim cannot interleave)"},
+    "rtstress": {"path": "harness/rt_stress.cpp", "serves": ["C03", "C06", "C08", "C16", "C17", "C20"], "kind": "real backend thread + 1-4 real frontend threads running generated programs under the OS scheduler; schedule-independent oracles at quiescence (second opinion for races inside backend/frontend functions that the serialised sim cannot interleave)"},
     "qtsan": {"path": "harness/queue_tsan.cpp", "serves": ["C01", "C02"], "kind": "real two-thread stress of the unmodified std::atomic queue code under ThreadSanitizer with generated configurations"},
     "wmm": {"path": "engine/wmm.h", "serves": ["C01", "C02", "C09"],
             "kind": "std::atomic retarget shim with per-location store history, vector clocks, coherence floors, choice-driven stale loads, coroutine scheduler, payload happens-before race detector"},
@@ -261,7 +261,9 @@ PROPERTIES = {
         "rule": SIM_CASE + ("Log ops go through macro call sites with bump(counter) arguments; SetLevel ops; non-trivial = a dynamic "
                             "and a static statement were both delivered AND two sinks disagreed on at least one statement"),
         "assumptions": ["blocking flavours (evaluated == enqueued)"],
-        "jobs": _simjobs("C16", ["sim_bb1k", "sim_ub"], quick_procs=4),
+        "jobs": _simjobs("C16", ["sim_bb1k", "sim_ub"], quick_procs=4) + [
+            # real threads: filters attached to a sink while other threads attach filters to it and the backend evaluates
+            _rtjob("rt_ub", "C16", quick_cases=60, quick_procs=4), _rtjob("rt_ub_tsan", "C16", quick_cases=20, quick_procs=2)],
     },
     "C17": {
         "technique": "stateful property-based testing of the logger/sink registry against a reference registry (creation, idempotent lookup, removal, blocking removal, re-creation, user sink references) under ASan",
